@@ -134,6 +134,8 @@ class Frame:
     depth: int = 0
     mask_ctx: Optional[str] = None  # slice text of the masked store being evaluated
     return_states: list = field(default_factory=list)  # object-env snapshot at every `return`
+    alias: dict = field(default_factory=dict)  # local name -> set of local names bound to the same array object
+    objalias: dict = field(default_factory=dict)  # local name -> object path it was bound to (alive = state.alive)
 
 
 class Interp:
@@ -251,6 +253,7 @@ class Interp:
                     fr.env.update(saved)
             for t in st.targets:
                 self.assign(t, v, fr, st)
+            self._update_aliases(st, fr)
             return "fall"
         if isinstance(st, ast.AnnAssign):
             if st.value is not None:
@@ -273,14 +276,22 @@ class Interp:
                     base_cur = cur_true = self.eval(st.target.value, fr)
                 newv = self._binop(st.op, cur_true, rhs, st)
                 val = self.dom.where(mask, newv, self.num(base_cur), st)
-                self.assign(st.target.value, val, fr, st)
+                self.assign(st.target.value, val, fr, st, element_store=True)
                 self._mark_mutated(st.target.value, fr)
+                if isinstance(st.target.value, ast.Name):
+                    for other in fr.alias.get(st.target.value.id, ()):
+                        if other != st.target.value.id:
+                            fr.env[other] = fr.env.get(st.target.value.id)
                 return "fall"
             val = self._binop(st.op, cur, rhs, st)
             self.assign(st.target, val, fr, st)
             if isinstance(st.target, ast.Name):
                 # in-place on an array parameter (Z += W*dt) is a mutation of the argument
                 self._mark_mutated(st.target, fr)
+                # ... and of every other local name bound to the same array (U = V = np.zeros_like(X))
+                for other in fr.alias.get(st.target.id, ()):
+                    if other != st.target.id:
+                        fr.env[other] = val
             return "fall"
         if isinstance(st, ast.Return):
             v = self.eval(st.value, fr) if st.value is not None else None
@@ -318,6 +329,9 @@ class Interp:
         raise Unsupported(f"{fr.fi.loc(st)}: unsupported statement {type(st).__name__} in {fr.fi.qual}")
 
     def if_stmt(self, st: ast.If, fr: Frame) -> str:
+        if any_guard_is_redundant(st):
+            # if m.any(): A[m] = v ...  ==  A[m] = v ...   (every store in the body is masked by m)
+            return self.block(st.body, fr)
         decided = self.decide(st.test, fr)
         if decided is True:
             return self.block(st.body, fr)
@@ -405,6 +419,42 @@ class Interp:
             return "return"
         return "fall"  # break / continue / raise inside one generic iteration end that iteration only
 
+    def _update_aliases(self, st: ast.Assign, fr: Frame) -> None:
+        """Local names bound to one array object: `U = V = <array expression>` and `A = B`.
+        An in-place update of one of them (A += x, A[m] = y) is an update of all of them."""
+        # name = <object path> / a, b = <path>, <path>: remember which object array the name denotes
+        pairs = []
+        for t in st.targets:
+            if isinstance(t, ast.Name):
+                pairs.append((t, st.value))
+            elif isinstance(t, (ast.Tuple, ast.List)) and isinstance(st.value, (ast.Tuple, ast.List)) and len(t.elts) == len(st.value.elts):
+                pairs += [(a, b) for a, b in zip(t.elts, st.value.elts) if isinstance(a, ast.Name)]
+        for a, b in pairs:
+            fr.objalias.pop(a.id, None)
+            if isinstance(b, (ast.Attribute, ast.Subscript)):
+                pth = self.path_of(b, fr)
+                if pth is not None and pth in self.objenv:
+                    fr.objalias[a.id] = pth
+            elif isinstance(b, ast.Name) and b.id in fr.objalias:
+                fr.objalias[a.id] = fr.objalias[b.id]
+        names = [t.id for t in st.targets if isinstance(t, ast.Name)]
+        for n in names:  # rebinding leaves the old group
+            for m in fr.alias.pop(n, set()):
+                if m != n and m in fr.alias:
+                    fr.alias[m].discard(n)
+        v = st.value
+        scalar_literal = isinstance(v, ast.Constant) or (isinstance(v, ast.UnaryOp) and isinstance(v.operand, ast.Constant))
+        if scalar_literal or not names:
+            return
+        group = set(names)
+        if isinstance(v, ast.Name) and isinstance(fr.env.get(v.id), (Ref,)) is False and v.id in fr.env and not isinstance(fr.env.get(v.id), (int, float, bool, str, type(None), Tup)):
+            group |= {v.id} | set(fr.alias.get(v.id, ()))
+        elif len(names) < 2:
+            return
+        if len(group) > 1:
+            for n in group:
+                fr.alias[n] = set(group)
+
     # ------------------------------------------------------------------
     def decide(self, test: ast.expr, fr: Frame):
         if self.decide_hook is not None:
@@ -436,6 +486,9 @@ class Interp:
                 self.objenv[cur.path] = v
                 return
             fr.env[target.id] = v
+            if element_store and target.id in fr.objalias:
+                # A = obj.arr; A[m] = v  writes obj.arr itself
+                self.objenv[fr.objalias[target.id]] = v
             return
         if isinstance(target, (ast.Tuple, ast.List)):
             if isinstance(v, Tup) and len(v.items) == len(target.elts):
@@ -517,6 +570,8 @@ class Interp:
             return self._canon(f"{b}.{node.attr}", fr)
         if isinstance(node, ast.Subscript) and _const_key(node):
             b = self.path_of(node.value, fr)
+            if b is None and isinstance(node.value, ast.Name) and node.value.id in fr.objalias:
+                b = fr.objalias[node.value.id]  # fields = self.fields; fields["u"] is self.fields["u"]
             if b is None:
                 return None
             key = node.slice.value  # type: ignore[attr-defined]
@@ -569,7 +624,11 @@ class Interp:
             return self._pyconst(node.value)
         if isinstance(node, ast.Name):
             if node.id in fr.env:
-                return fr.env[node.id]
+                v = fr.env[node.id]
+                if isinstance(v, Ref) and v.path in self.objenv and "." in v.path:
+                    # a local alias of an object array (active = state.active): read the array's current value
+                    return self.objenv[v.path]
+                return v
             if node.id == "self":
                 return Ref(fr.self_path or "self")
             mi = fr.fi.module
@@ -952,6 +1011,39 @@ def vtext(v) -> str:
 
 def _path(v) -> str:
     return v.path if isinstance(v, Ref) else str(v)
+
+
+def any_mask_of(test: ast.expr):
+    """`m.any()` / `np.any(m)` / `m.sum() > 0`-free forms -> the mask expression m, else None."""
+    if isinstance(test, ast.Call) and not test.keywords:
+        if isinstance(test.func, ast.Attribute) and test.func.attr == "any" and not test.args:
+            return test.func.value
+        if unparse(test.func) in ("np.any", "numpy.any", "any") and len(test.args) == 1:
+            return test.args[0]
+    return None
+
+
+def any_guard_is_redundant(st: ast.If) -> bool:
+    """True for `if m.any(): <body>` without else where every statement of the body is a store
+    masked by the same m (A[m] = ..., A[m] op= ...): the guard only saves work, the body is a no-op
+    when no element of m is set."""
+    m = any_mask_of(st.test)
+    if m is None or st.orelse or not st.body:
+        return False
+    mt = unparse(m)
+    for b in st.body:
+        if isinstance(b, ast.Assign):
+            tg = b.targets
+        elif isinstance(b, ast.AugAssign):
+            tg = [b.target]
+        elif isinstance(b, ast.Expr) and isinstance(b.value, ast.Call) and unparse(b.value.func).split(".")[0] in ("logger", "logging"):
+            continue
+        else:
+            return False
+        for t in tg:
+            if not (isinstance(t, ast.Subscript) and unparse(t.slice) == mt):
+                return False
+    return True
 
 
 def make_flag_decide(flags: dict, prefix: str = "self."):
